@@ -88,6 +88,9 @@ func stdEnv(r *mon.Rng) *env {
 	add("sarr", vArr(vStr("ab"), vStr("b")))
 	add("z", vInt(0))
 	add("my var", vInt(4))
+	add("not", vInt(6)) // reachable only as quoted identifiers
+	add("FALSE", vBool(true))
+	add("in", vInt(9))
 	add("ds", vStr(mon.Pick(r, []string{"2024-01-01T10:00:00Z", "2024-01-02T10:00:00Z", "2024-01-03T10:00:00Z", "2024-01-04T10:00:00Z", "2024-01-05T10:00:00Z", "2024-01-06T23:30:00-11:00"})))
 	add("dt", vTime(time.Unix(int64(86400*(19000+r.Intn(7))), 0).UTC()))
 	return e
@@ -202,7 +205,7 @@ func (g *exprGen) shape(depth int) *model.Node {
 		if r.Chance(1, 3) {
 			return leafConst(mon.Pick(r, []string{"2", "3", "5", "'s'", "TRUE", "1.5", "7"}))
 		}
-		return leafVar(mon.Pick(r, []string{"a", "b", "c", "s", "p", "n", "arr", "\"my var\""}))
+		return leafVar(mon.Pick(r, []string{"a", "b", "c", "s", "p", "n", "arr", "\"my var\"", "\"not\"", "\"FALSE\"", "\"in\""}))
 	}
 	d := depth - 1
 	switch x := r.Intn(30); {
